@@ -312,6 +312,39 @@ def record_psbt_route(run: Run, rnd: random.Random, thorough: bool, evs: list[di
     return n
 
 
+def record_types(run: Run, rnd: random.Random, thorough: bool, evs: list[dict[str, Any]]) -> dict[str, int]:
+    """The library's typing of random expressions, well typed or not, against the specification's table (base type, z o n d u)."""
+    from btclib.descriptors import miniscript
+
+    stats = {"typed": 0, "ill_typed": 0}
+    env, _, pre = universe(rnd)
+    texts = list(CORPUS) + list(dict.fromkeys(generated(rnd, 60 if thorough else 15)))
+    # deliberate type errors: a wrapper or a combinator over the wrong base type
+    texts += ["and_v(pk(A),pk(B))", "and_b(pk(A),pk(B))", "or_b(pk(A),pk(B))", "or_c(pk(A),pk(B))", "or_d(v:pk(A),pk(B))", "a:pk_k(A)", "c:pk(A)", "v:v:pk(A)", "s:older(5)", "d:pk(A)", "j:older(5)",
+              "thresh(2,pk(A),pk(B))", "thresh(3,pk(A),s:pk(B))", "andor(older(5),pk(A),pk(B))", "or_i(pk(A),v:pk(B))", "and_v(v:pk(A),s:pk(B))", "n:v:pk(A)", "multi(3,A,B)", "multi(0,A,B)",
+              "multi_a(1,A,B)", "thresh(0,pk(A))", "dv:older(5)", "and_v(v:older(5),v:pk(A))", "tv:pk(A)", "lv:pk(A)", "uc:pk_k(A)"]
+    for text in texts[: (len(texts) if thorough else 700)]:
+        text = fix_digests(text, env, pre)
+        full = render(text, env)
+        try:
+            ast = tree(text, env)
+        except Exception:  # noqa: BLE001
+            continue
+        m = outcome(lambda: miniscript.parse(full))
+        if isinstance(m, str):
+            if m.startswith("foreign"):
+                evs.append({"op": "holds", "what": f"miniscript.parse({text}) raised {m}", "ok": False})
+                continue
+            evs.append({"op": "type", "ast": ast, "ctx": "P2WSH", "valid": False, "base": "", "mods": [], "text": text})
+            stats["ill_typed"] += 1
+        else:
+            props = "".join(sorted(m.properties))
+            base = [c for c in props if c in "BVKW"]
+            evs.append({"op": "type", "ast": ast, "ctx": "P2WSH", "valid": True, "base": base[0] if base else "", "mods": [c for c in props if c in "zondu"], "text": text})
+            stats["typed"] += 1
+    return stats
+
+
 def check(run: Run) -> None:
     thorough = run.tier == "thorough"
     rnd = random.Random(run.seed)
@@ -320,13 +353,15 @@ def check(run: Run) -> None:
                 "preimages at hand or not x 6 (version, lock time, sequence) classes: a satisfaction is produced only when the spending condition holds, and when produced the "
                 "specification's own engine accepts the spend and the witness stays within the predicted items, bytes and executed ops; a two-input psbt through miniscript_solver "
                 "with the sequences on either side of older()")
-    run.assumptions = ["which expressions are sane is the library's own type system (the specification compiles and judges what it accepts; the typing rules are not re-specified)",
+    run.assumptions = ["the correctness half of the type system (base type and the modifiers z o n d u) is specified and compared; the malleability and timelock-mixing properties (e f s m x k g h i j) "
+                       "and hence 'sane' are the library's own: the specification compiles and judges what it accepts",
                        "the bound on the stack while the script runs (max_exec_stack_items) is not checked: the specification's machine does not record its peak",
                        "P2WSH context; tapscript miniscript is covered for compilation only through multi_a in C14 and the engine in C08/C10"]
     evs: list[dict[str, Any]] = []
     s1 = record(run, rnd, thorough, evs)
     n2 = record_psbt_route(run, rnd, thorough, evs)
-    keep = ("op", "ast", "script", "size", "reads_back", "reparses", "tx", "prevouts", "idx", "flags", "sigs", "pre", "produced", "stack", "max_ops", "max_items", "max_size", "ok")
+    s3 = record_types(run, rnd, thorough, evs)
+    keep = ("ctx", "valid", "base", "mods", "op", "ast", "script", "size", "reads_back", "reparses", "tx", "prevouts", "idx", "flags", "sigs", "pre", "produced", "stack", "max_ops", "max_items", "max_size", "ok")
     compact = [{k: v for k, v in e.items() if k in keep} for e in evs]
     results, bad, diag = events.validate("C15Trace", compact, batch=150, timeout=6000)
     for r in results:
@@ -337,7 +372,7 @@ def check(run: Run) -> None:
         run.violation(f"miniscript|{e['op']}|{what}", f"{e['op']}: {what}: {({kk: vv for kk, vv in e.items() if kk in ('produced', 'sigs', 'lock', 'size', 'reads_back', 'reparses', 'max_ops', 'max_items', 'max_size', 'ok', 'err')})}; "
                       f"the specification says {str(diag.get(k))[:300]}", {"event": e, "expected": str(diag.get(k))[:2000]})
     run.sample({"event": {k: (v if len(str(v)) < 120 else str(v)[:120]) for k, v in next(e for e in evs if e["op"] == "sat" and e["produced"]).items()}})
-    run.section("events", {"miniscript": s1, "psbt_route": n2})
+    run.section("events", {"miniscript": s1, "psbt_route": n2, "typing": s3})
     if s1["expressions"] < 40 or s1["satisfactions"] < 40 or s1["refusals"] < 40:
         raise tlc.TLCFailure(f"C15 harness is vacuous: {s1}")
     run.count(evaluations=len(evs), validated=len(evs), nontrivial=len(evs))
@@ -350,7 +385,8 @@ def replay(path: str) -> int:
     e = body.get("event")
     if not e:
         return 0
-    keep = ("op", "ast", "script", "size", "reads_back", "reparses", "tx", "prevouts", "idx", "flags", "sigs", "pre", "produced", "stack", "max_ops", "max_items", "max_size", "ok")
+    keep = ("op", "ast", "script", "size", "reads_back", "reparses", "tx", "prevouts", "idx", "flags", "sigs", "pre", "produced", "stack", "max_ops", "max_items", "max_size", "ok",
+            "ctx", "valid", "base", "mods")
     results, bad, diag = events.validate("C15Trace", [{k: v for k, v in e.items() if k in keep}], workers=1)
     if bad:
         print(f"VIOLATION property=C15 replay={path}  # recorded event not explained by the specification: {str(diag.get(0))[:300]}")
